@@ -3,9 +3,10 @@
 // J (round 3, coq/C12/CorrJ.v) entry points of the Real containers on operands holding jets at order 2,
 // V sparse vectors, E algorithm entry points and distribution constructors, H (coq/C12/CorrH.v) HISTORIES:
 // sequences of calls of one entry point sharing a caller-owned InSitu struct, and of one estimator.
-//   c12 --seed S --n N --out DIR [--tier quick|thorough]        correspondence cases
-//   c12 --extra hunt  --seed S --n N --out DIR                   property-level search on the implementation
-//   c12 --replay FILE --out DIR                                  re-execute one reported case
+//
+//	c12 --seed S --n N --out DIR [--tier quick|thorough]        correspondence cases
+//	c12 --extra hunt  --seed S --n N --out DIR                   property-level search on the implementation
+//	c12 --replay FILE --out DIR                                  re-execute one reported case
 package main
 
 import (
